@@ -1,10 +1,148 @@
 /-
-  MdModel.Bytes — placeholder (model not written yet).
+  MdModel.Bytes — line-protocol entry of the byte-level reader model (`MdModel.Dump`).
+
+  engine `read` (C01):
+      read <hex(bytes)> [sizes:<19 decimal numbers, comma separated>]
+    -> hdr:err <Error>
+     | hdr:ok <le|be> ver=<v> n=<stream_count> dir=<rva> | dir:[<type>@<idx>:<size>:<rva>,..]
+       | thr:<S> | mod:<S> | unl:<S> | mem:<S> | mem64:<S> | minfo:<S> | tnames:<S> | tinfo:<S>
+       | hnd:<S> | exc:<S> | cp:<S> | getmem:<mem64|mem|none>
+     followed by  ` ## allocs:<n>*<sz>[~],..`  (the allocation log; `~` = inexact estimate)
+     or `PANIC <site> ## allocs:..` when the model reaches a panic outcome.
+    <S> = `err <Error>` or `ok[..]` with one `;`-terminated item per element (see `show*` below).
+    `sizes:` = `size_of` of the Rust element types in the order of `MemSizes`' fields; absent ⇒
+    `MemSizes.default`.
+  engine `roundtrip` (C02): not implemented here yet — answers `bad-op`.
 -/
 import MdModel.Prelude
+import MdModel.Dump
 namespace MdModel.Bytes
+open MdModel MdModel.Dump
+
+def showName (cs : List Nat) : String := Proto.joinWith "." (cs.map Proto.natToHex)
+
+def showOptRange : Option (Nat × Nat) → String
+  | none => "-"
+  | some (s, e) => toString (e - s)
+
+def showItems {α : Type} (f : α → String) (xs : List α) : String :=
+  "ok[" ++ String.join (xs.map fun x => f x ++ ";") ++ "]"
+
+def showRes {α : Type} (f : α → String) : Except Err α → String
+  | .error e => "err " ++ e.name
+  | .ok a => f a
+
+def showThread (t : Thread) : String :=
+  s!"{t.id}/{t.teb}/{showOptRange t.context}/" ++
+    (match t.stack with
+     | none => "-"
+     | some r => s!"{r.base}:{r.size}")
+
+def showModule (m : Module) : String :=
+  s!"{m.raw.base}/{m.raw.size}/{showName m.name}/" ++
+    (match m.codeview with
+     | none => "-"
+     | some cv => cv.kind)
+
+def showUnloaded (m : UnloadedModule) : String := s!"{m.base}/{m.size}/{showName m.name}"
+def showRegion (r : Region) : String := s!"{r.base}/{r.size}/{r.rva}"
+def showMemInfo (i : MemInfo) : String := s!"{i.base}/{i.size}/{i.state}/{i.prot}/{i.ty}"
+def showThreadName (p : Nat × List Nat) : String := s!"{p.1}={showName p.2}"
+def showThreadInfo (v : List Nat) : String := toString (fld v 0)
+
+def showOptName : Option (List Nat) → String
+  | none => "-"
+  | some cs => "=" ++ showName cs
+
+def showHandle (h : Handle) : String :=
+  s!"{fld h.vals 0}/{showOptName h.typeName}/{showOptName h.objectName}/" ++
+    Proto.joinWith "," (h.infos.map fun oi => s!"{oi.ty}:{oi.next}")
+
+/-- The exception line also carries what the two accessors of the property's `observe_at` that
+    index `exception_information` produce: the printed parameter list and the raw crash address
+    (Windows rules). A panic outcome of the accessor is shown as `PANIC`. -/
+def showException (x : Exception) : String :=
+  let ca := match (crashAddressRaw x true).res with
+    | .ok a => toString a
+    | .err e => "err " ++ e.name
+    | .panic _ => "PANIC"
+  s!"ok {x.threadId}/{x.code}/{x.flags}/{x.address}/{x.numberParameters}/{showOptRange x.context}/p=" ++
+    Proto.joinWith "," ((printedParams x).map fun (i, v) => s!"{i}:{v}") ++ s!"/ca={ca}"
+
+def showBytes (b : Bytes) : String := Proto.hex b.toList
+
+def showDict (d : List (Bytes × Bytes)) : String :=
+  "[" ++ Proto.joinWith "," (d.map fun (k, v) => s!"{showBytes k}:{showBytes v}") ++ "]"
+
+def showAnnotationValue : AnnotationValue → String
+  | .invalid => "i"
+  | .string s => "s" ++ showBytes s
+  | .userDefined ty v => s!"u{ty}:{v}"
+  | .unsupported ty v => s!"x{ty}:{v}"
+
+def showModuleCrashpad (m : ModuleCrashpadInfo) : String :=
+  s!"{m.moduleIndex}/{m.version}/L[" ++ Proto.joinWith "," (m.listAnnotations.map showBytes) ++ "]/D" ++
+    showDict m.simpleAnnotations ++ "/A[" ++
+    Proto.joinWith "," (m.annotationObjects.map fun (k, v) => s!"{showBytes k}:{showAnnotationValue v}") ++ "]"
+
+def showCrashpad (c : CrashpadInfo) : String :=
+  s!"ok {c.version}/D" ++ showDict c.simpleAnnotations ++ "/M[" ++
+    String.join (c.modules.map fun m => showModuleCrashpad m ++ ";") ++ "]"
+
+def showDir (d : Dump) : String :=
+  "dir:[" ++ Proto.joinWith "," (d.streams.map fun (ty, ent) => s!"{ty}@{ent.idx}:{ent.loc.size}:{ent.loc.rva}") ++ "]"
+
+def showParsed (p : Parsed) : String :=
+  let d := p.dump
+  let en := match d.endian with
+    | .little => "le"
+    | .big => "be"
+  Proto.joinWith " | " [
+    s!"hdr:ok {en} ver={d.header.version} n={d.header.streamCount} dir={d.header.dirRva}",
+    showDir d,
+    "thr:" ++ showRes (showItems showThread) p.threads,
+    "mod:" ++ showRes (showItems showModule) p.modules,
+    "unl:" ++ showRes (showItems showUnloaded) p.unloaded,
+    "mem:" ++ showRes (showItems showRegion) p.memory,
+    "mem64:" ++ showRes (showItems showRegion) p.memory64,
+    "minfo:" ++ showRes (showItems showMemInfo) p.memInfo,
+    "tnames:" ++ showRes (showItems showThreadName) p.threadNames,
+    "tinfo:" ++ showRes (showItems showThreadInfo) p.threadInfo,
+    "hnd:" ++ showRes (showItems showHandle) p.handles,
+    "exc:" ++ showRes showException p.exception,
+    "cp:" ++ showRes showCrashpad p.crashpad,
+    "getmem:" ++ getMemoryKind p]
+
+def showAllocs (as : List Alloc) : String :=
+  "allocs:" ++ Proto.joinWith "," (as.map fun a => s!"{a.n}*{a.sz}" ++ (if a.exact then "" else "~"))
+
+def parseSizes (s : String) : Option MemSizes :=
+  match (s.splitOn ",").map Proto.optNat with
+  | [some a, some b, some c, some d, some e, some f, some g, some h, some i, some j, some k, some l,
+     some m, some n, some o, some p, some q, some r, some t] =>
+    some ⟨a, b, c, d, e, f, g, h, i, j, k, l, m, n, o, p, q, r, t⟩
+  | _ => none
+
+def answerRead (ms : MemSizes) (b : Bytes) : String :=
+  let r := readAll ms b
+  (match r.res with
+   | .panic site => "PANIC " ++ site
+   | .err e => "hdr:err " ++ e.name    -- not produced by `readAll` (errors are values)
+   | .ok (.error e) => "hdr:err " ++ e.name
+   | .ok (.ok p) => showParsed p) ++ " ## " ++ showAllocs r.allocs
 
 /-- line-protocol entry point of this model (engine(s): read, roundtrip) -/
-def handle (_engine : String) (_args : List String) : String := "bad-op"
+def handle (engine : String) (args : List String) : String :=
+  match engine, args with
+  | "read", [hex] =>
+    match Proto.unhex hex with
+    | none => "bad-op"
+    | some bs => answerRead MemSizes.default bs.toArray
+  | "read", [hex, sizes] =>
+    if !sizes.startsWith "sizes:" then "bad-op" else
+    match Proto.unhex hex, parseSizes (sizes.drop 6).toString with
+    | some bs, some ms => if ms.bounded then answerRead ms bs.toArray else "bad-op"
+    | _, _ => "bad-op"
+  | _, _ => "bad-op"
 
 end MdModel.Bytes
